@@ -26,23 +26,53 @@ func genSigma(prefix []int, maxSyms int, emit func(string)) { genSigmaFrom(prefi
 
 // genSigmaFrom is genSigma restricted to strings of at least minSyms symbols.
 func genSigmaFrom(prefix []int, minSyms, maxSyms int, emit func(string)) {
+	genSigmaSel(prefix, minSyms, maxSyms, selAll, emit)
+}
+
+// sigmaCore marks the 12 symbols of the sub-alphabet whose longest layer is
+// scheduled first in the thorough tier (T items); the strings of the longest
+// layer that contain at least one of the other five symbols (% space ~ \n
+// 0x80: bytes that no grammar rule mentions) form the U items, scheduled last.
+var sigmaCore = func() []bool {
+	m := make([]bool, len(sigma))
+	for i, s := range sigma {
+		m[i] = !strings.Contains("% ~\n\x80", s)
+	}
+	return m
+}()
+
+const (
+	selAll      = iota // every string
+	selCoreOnly        // strings made of sigmaCore symbols only
+	selNonCore         // strings with at least one symbol outside sigmaCore
+)
+
+func genSigmaSel(prefix []int, minSyms, maxSyms, sel int, emit func(string)) {
 	buf := make([]byte, 0, 4*maxSyms)
+	other := false
 	for _, p := range prefix {
 		buf = append(buf, sigma[p]...)
+		other = other || !sigmaCore[p]
 	}
-	var rec func(buf []byte, n int)
-	rec = func(buf []byte, n int) {
-		if n >= minSyms {
+	if sel == selCoreOnly && other {
+		return
+	}
+	var rec func(buf []byte, n int, other bool)
+	rec = func(buf []byte, n int, other bool) {
+		if n >= minSyms && (sel != selNonCore || other) {
 			emit(string(buf))
 		}
 		if n == maxSyms {
 			return
 		}
-		for _, sym := range sigma {
-			rec(append(buf, sym...), n+1)
+		for i, sym := range sigma {
+			if sel == selCoreOnly && !sigmaCore[i] {
+				continue
+			}
+			rec(append(buf, sym...), n+1, other || !sigmaCore[i])
 		}
 	}
-	rec(buf, len(prefix))
+	rec(buf, len(prefix), other)
 }
 
 // symCount is the number of sigma symbols of a family S string (only "é" is longer than one byte).
@@ -253,7 +283,7 @@ func pureItems(b bounds) []string {
 	items = append(items, "E 0", "E 1")
 	// S: split on the first two symbols; "S short" covers "" and the 1-symbol
 	// strings. With SigmaLayer the strings of exactly SigmaLen symbols form
-	// their own items (T), scheduled last.
+	// their own items, scheduled last: T (only sigmaCore symbols), then U (the rest).
 	items = append(items, "S short")
 	for i := range sigma {
 		for j := range sigma {
@@ -263,7 +293,14 @@ func pureItems(b bounds) []string {
 	if b.SigmaLayer {
 		for i := range sigma {
 			for j := range sigma {
-				items = append(items, fmt.Sprintf("T %d %d", i, j))
+				if sigmaCore[i] && sigmaCore[j] {
+					items = append(items, fmt.Sprintf("T %d %d", i, j))
+				}
+			}
+		}
+		for i := range sigma {
+			for j := range sigma {
+				items = append(items, fmt.Sprintf("U %d %d", i, j))
 			}
 		}
 	}
@@ -293,7 +330,9 @@ func runItem(item string, b bounds, emit func(string)) {
 		}
 		genSigma([]int{atoi(f[1]), atoi(f[2])}, top, emit)
 	case "T":
-		genSigmaFrom([]int{atoi(f[1]), atoi(f[2])}, b.SigmaLen, b.SigmaLen, emit)
+		genSigmaSel([]int{atoi(f[1]), atoi(f[2])}, b.SigmaLen, b.SigmaLen, selCoreOnly, emit)
+	case "U":
+		genSigmaSel([]int{atoi(f[1]), atoi(f[2])}, b.SigmaLen, b.SigmaLen, selNonCore, emit)
 	case "N":
 		genForm(forms[f[1]], partAlphabet(b.Thorough), atoi(f[2]), emit)
 	case "W":
